@@ -81,6 +81,7 @@ type op struct {
 	Keep      int64  `json:"keep,omitempty"` // funds/drain: what the poor creator keeps
 	Value     string `json:"value,omitempty"`
 	Dt        int64  `json:"dt,omitempty"`
+	Aged      uint64 `json:"aged,omitempty"` // create: batches the feed's request context has issued before the history starts
 }
 
 type val struct {
@@ -106,6 +107,7 @@ type feedM struct {
 	batches map[uint64]*batchM
 	// restarts counts the genesis round trips this feed went through
 	restarts int
+	aged     uint64 // batches issued before the history (0 = a new feed)
 }
 
 type machine struct {
@@ -113,9 +115,10 @@ type machine struct {
 	feeds []*feedM
 	// statistics
 	nBatches, nValues, nNegative, nTrim, nBelowThr, nAutoPause, nStranger, nNoField int
+	nAged, nAgedValues                                                              int
 	// restart statistics
-	nRestart, nRestartRunning, nRestartOpenBatch, nRestartOneValue, nRestartCollapse int
-	nRestartManyValues                                                               int
+	nRestart, nRestartRunning, nRestartOpenBatch, nRestartOneValue, nRestartCollapse     int
+	nRestartManyValues                                                                   int
 	nValueAfterRestart, nAutoPauseAfterRestart, nTrimAfterRestart, nBelowThrAfterRestart int
 	// feeds that were running at the last restart and have not been started again by their creator (generator hint)
 	pendingStart []int
@@ -225,7 +228,10 @@ func (m *machine) Next(t *rapid.T) op {
 		timeout := int64(rapid.IntRange(1, 4).Draw(t, "timeout"))
 		creator := rapid.SampledFrom([]int{3, 3, 3, 4, 0}).Draw(t, "creator") // 4 is poor
 		return op{Kind: "create", Who: creator, Agg: rapid.SampledFrom([]string{"max", "min", "avg"}).Draw(t, "agg"), Hist: uint64(rapid.IntRange(1, 5).Draw(t, "hist")),
-			Providers: perm, Thr: uint32(rapid.IntRange(1, n).Draw(t, "thr")), Timeout: timeout, Freq: uint64(timeout) + uint64(rapid.IntRange(0, 3).Draw(t, "freq"))}
+			Providers: perm, Thr: uint32(rapid.IntRange(1, n).Draw(t, "thr")), Timeout: timeout, Freq: uint64(timeout) + uint64(rapid.IntRange(0, 3).Draw(t, "freq")),
+			// one feed in four has been running for a long time: its request context has already issued some 250 batches
+			// (no generated history is that long; the batch counter is part of the keys the feed values are stored under)
+			Aged: uint64(rapid.SampledFrom([]int{0, 0, 0, 249, 252, 254, 65533}).Draw(t, "aged"))}
 	case k < 45 && len(reqs) > 0:
 		r := reqs[rapid.IntRange(0, len(reqs)-1).Draw(t, "req")]
 		o := op{Kind: "respond", ReqID: r.id, Provider: r.provider, Feed: r.feed}
@@ -323,8 +329,18 @@ func (m *machine) Apply(o op) error {
 		if !found {
 			return pbt.Failf("C17/create-failed", "feed %s not stored", name)
 		}
+		if o.Aged > 0 {
+			id, _ := hex.DecodeString(feed.RequestContextID)
+			rc, ok := c.E.K.Service.GetRequestContext(c.Ctx, id)
+			if !ok {
+				return pbt.Failf("harness/aged-feed", "request context of feed %s not found", name)
+			}
+			rc.BatchCounter = o.Aged
+			c.E.K.Service.SetRequestContext(c.Ctx, id, rc)
+			m.nAged++
+		}
 		m.feeds = append(m.feeds, &feedM{name: name, creator: o.Who, agg: o.Agg, hist: o.Hist, thr: o.Thr, nprov: len(o.Providers),
-			ctxID: strings.ToUpper(feed.RequestContextID), batches: map[uint64]*batchM{}})
+			ctxID: strings.ToUpper(feed.RequestContextID), batches: map[uint64]*batchM{}, aged: o.Aged})
 		events = append(events, eventsOf{r.Events})
 	case "start", "pause", "edit":
 		f := m.feeds[o.Feed]
@@ -671,6 +687,9 @@ func (m *machine) process(evs []abciEvent) error {
 			b.completed = true
 			m.nBatches++
 			if len(b.outputs) >= int(b.thr) && len(b.outputs) > 0 {
+				if f.aged > 0 && st.BatchCounter > 255 {
+					m.nAgedValues++
+				}
 				f.values = append([]val{{data: "?" + strings.Join(b.outputs, ","), ts: m.c.Time()}}, f.values...)
 				if uint64(len(f.values)) > f.hist {
 					f.values = f.values[:f.hist]
@@ -829,6 +848,7 @@ func (m *machine) Classify() (bool, []string) {
 	add(m.nValues >= 2, "values>=2")
 	add(m.nNegative > 0, "all-negative-set")
 	add(m.nTrim > 0, "history-trim")
+	add(m.nAgedValues >= 2, "aged-feed-stored-values-across-a-counter-byte-boundary")
 	add(m.c.Time().Year() > 2262 && m.nValues > 0, "block-time-beyond-2262")
 	add(m.nBelowThr > 0, "below-threshold-batch")
 	add(m.nStranger > 0, "stranger-attempt")
